@@ -645,4 +645,137 @@ Proof.
            now rewrite D, concat_lf_lines.
 Qed.
 
+(** * The theorem *)
+
+Lemma form1_no_autocorrect ls : form1 ls = true -> auto_correct_newlines ls = false.
+Proof.
+  intros H. destruct ls as [|l1 [|l2 rest]]; [reflexivity|reflexivity|].
+  cbn. apply form1_cons in H. destruct H as [_ [H _]]. now rewrite H.
+Qed.
+
+(** the tokens and the top-level elements the parser builds from the dump *)
+Lemma parse_dump_tree d :
+  forallb para_wf (paras d) = true -> DocInv.lines_ok d = true -> doc_canon d = true ->
+  exists td,
+    td_wf td = true /\ doc_of td = norm_doc d
+    /\ exists ts, tokenize py_isspace nf nr (lines_of (Doc.dump d)) = Ok ts
+                  /\ stages (map node_of_token ts) = R5 td.
+Proof.
+  intros Hwf Hl Hc. unfold lines_of. rewrite (lf_lines_dump d Hwf Hl).
+  assert (Hf : form1 (doc_lines d) = true).
+  { rewrite <- (lf_lines_dump d Hwf Hl). apply form1_lf_lines. }
+  destruct (tok_doc d Hwf Hc Hf) as [td [T [W [C D]]]].
+  exists td. split; [exact W|]. split; [exact D|].
+  destruct (T None) as [ts [E1 E2]]. exists ts. split.
+  - unfold tokenize. now rewrite (form1_no_autocorrect _ Hf).
+  - rewrite E2. now apply stages_R.
+Qed.
+
+(** parse_dump_abs, accepting mode: every document with well-formed fields, valid line structure
+    and parser-shaped item structure is what the parser model reads from its own dump *)
+Theorem parse_dump_abs d :
+  forallb para_wf (paras d) = true -> DocInv.lines_ok d = true -> doc_canon d = true ->
+  exists t, parse_accepting py_isspace nf nr (lines_of (Doc.dump d)) = Ok t
+            /\ abs_of_tree t = Ok (norm_doc d).
+Proof.
+  intros Hwf Hl Hc. destruct (parse_dump_tree d Hwf Hl Hc) as [td [W [D [ts [E1 E2]]]]].
+  exists (Elem EFile (R5 td)). split.
+  - unfold parse_accepting, parse. rewrite E1. cbn [bind negb andb]. now rewrite E2.
+  - rewrite abs_R5. now rewrite D.
+Qed.
+
+(** the no-duplicates class, when no name is repeated *)
+Definition plain_item (it : item) : item :=
+  match it with
+  | Para p => Para (PN (para_fields p))
+  | Other k t => Other k t
+  end.
+Definition plain_doc (d : doc) : doc := map plain_item d.
+
+Lemma from_kvpairs_nodup fs : nodup_names fs = true -> Doc.from_kvpairs fs = PN fs.
+Proof. unfold nodup_names, lnames, Doc.from_kvpairs. now intros ->. Qed.
+
+Lemma norm_doc_inv d : doc_inv d = true -> norm_doc d = plain_doc d.
+Proof.
+  unfold doc_inv. induction d as [|it d IH]; intros H; [reflexivity|].
+  cbn [norm_doc plain_doc map]. fold (norm_doc d). fold (plain_doc d).
+  destruct it as [p|k t]; cbn [paras flat_map app forallb] in H.
+  - apply andb_true_iff in H. destruct H as [Hp H]. rewrite (IH H). cbn [norm_item plain_item].
+    apply para_inv_fields in Hp. unfold fields_inv in Hp. apply andb_true_iff in Hp.
+    destruct Hp as [Hp _]. now rewrite from_kvpairs_nodup.
+  - now rewrite (IH H).
+Qed.
+
+Lemma R5_no_dup td d :
+  doc_of td = plain_doc d -> has_dup_paragraph (R5 td) = false.
+Proof.
+  revert d. induction td as [|it td IH]; intros d H; [reflexivity|].
+  destruct d as [|x d]; [discriminate|]. cbn [doc_of plain_doc map] in H. injection H as H1 H2.
+  unfold has_dup_paragraph, R5 in *. cbn [map existsb]. rewrite (IH d H2), orb_false_r.
+  destruct it as [fs|t|ls]; [|reflexivity|reflexivity].
+  cbn [item5]. unfold Parse.from_kvpairs. rewrite has_dup_ci_nodupb, !map_map.
+  cbn [item_of] in H1. destruct x as [p|k t]; [|discriminate]. cbn [plain_item] in H1.
+  injection H1 as H1. unfold Doc.from_kvpairs in H1.
+  assert (E : map (fun x => lower (kvp_name (field4 x))) fs
+              = map (fun f => lower (f_name f)) (map field_of fs)).
+  { rewrite map_map. apply map_ext. intros f. now rewrite kvp_name_field4. }
+  rewrite E. now destruct (nodupb (map (fun f => lower (f_name f)) (map field_of fs))).
+Qed.
+
+(** parse_dump_abs for well-formed documents ([doc_wf]: no repeated names in addition), any
+    combination of the two acceptance flags: nothing is rejected, every paragraph comes back in
+    the no-duplicates class with the same fields *)
+Theorem parse_dump_abs_wf d :
+  doc_wf d = true -> doc_canon d = true ->
+  forall accept_errors accept_dups,
+  exists t, parse py_isspace nf nr accept_errors accept_dups (lines_of (Doc.dump d)) = Ok t
+            /\ abs_of_tree t = Ok (plain_doc d).
+Proof.
+  intros Hwf Hc ae ad. unfold doc_wf, doc_ok in Hwf.
+  apply andb_true_iff in Hwf. destruct Hwf as [Hok Hwf].
+  apply andb_true_iff in Hok. destruct Hok as [Hinv Hl].
+  destruct (parse_dump_tree d Hwf Hl Hc) as [td [W [D [ts [E1 E2]]]]].
+  rewrite (norm_doc_inv d Hinv) in D.
+  exists (Elem EFile (R5 td)). split.
+  - unfold parse. rewrite E1. cbn [bind]. rewrite E2.
+    rewrite (R5_no_error td W), (R5_no_dup td d D), !andb_false_r. reflexivity.
+  - rewrite abs_R5. now rewrite D.
+Qed.
+
 End Glue.
+
+(** * The instance the implementation runs with *)
+From Verif Require Import Gen.ReproChars.
+
+Lemma field_name_first_same c : field_name_first c = Doc.name_first c.
+Proof.
+  unfold field_name_first, Doc.name_first, in_ranges, field_first_ranges. cbn [existsb fst snd]. lia.
+Qed.
+
+Lemma field_name_rest_same c : field_name_rest c = Doc.name_char c.
+Proof.
+  unfold field_name_rest, Doc.name_char, in_ranges, field_rest_ranges. cbn [existsb fst snd]. lia.
+Qed.
+
+Theorem py_parse_dump_abs d :
+  forallb para_wf (paras d) = true -> DocInv.lines_ok d = true -> doc_canon d = true ->
+  py_reparse (Doc.dump d) = Ok (norm_doc d).
+Proof.
+  intros Hwf Hl Hc.
+  destruct (parse_dump_abs field_name_first field_name_rest field_name_first_same
+              field_name_rest_same d Hwf Hl Hc) as [t [P A]].
+  unfold py_reparse, reparse_with. unfold parse_accepting in P. now rewrite P.
+Qed.
+
+Theorem py_parse_dump_abs_wf d :
+  doc_wf d = true -> doc_canon d = true ->
+  py_reparse (Doc.dump d) = Ok (plain_doc d) /\ py_reparse_strict (Doc.dump d) = Ok (plain_doc d).
+Proof.
+  intros Hwf Hc. split.
+  - destruct (parse_dump_abs_wf field_name_first field_name_rest field_name_first_same
+                field_name_rest_same d Hwf Hc true true) as [t [P A]].
+    unfold py_reparse, reparse_with. now rewrite P.
+  - destruct (parse_dump_abs_wf field_name_first field_name_rest field_name_first_same
+                field_name_rest_same d Hwf Hc false true) as [t [P A]].
+    unfold py_reparse_strict, reparse_with. now rewrite P.
+Qed.
